@@ -153,8 +153,9 @@ def SZAC(L, M):
 
 
 def small_params(r):
+    # (0 blocks per inventory: one inventory entry per one / zero, more entries than backend words on dense vectors)
     return r.choice([{"m": "new"}, {"m": "inv", "a": 1}, {"m": "inv", "a": 2}, {"m": "inv", "a": 8},
-                     {"m": "inv", "a": 32}])
+                     {"m": "inv", "a": 32}, {"m": "inv", "a": 0}])
 
 
 def SS(k, r):
